@@ -18,11 +18,12 @@ import itertools
 from typing import Any
 
 import lib
-from corr_C08 import mk_key, mk_sig, response_from_j
+from corr_C08 import base_ksr, glue_run, mk_key, mk_sig, response_from_j
 from lib import DAY_US, Result, request_policy_j, response_j, run_driver, run_impl, same_outcome, us_dt, us_td
 
 DRIVER = "kskm_driver_pkgb"
 ASSUMPTIONS = [
+    "entry-point stream: ksrsigner() is run with load_skr / load_ksr / init_pkcs11_modules / create_skr / output_skr_xml replaced by recording stubs; only the position and effect of the check_last_skr_and_new_skr call relative to the write is observed",
     "the two checks read nothing but the two Response objects and their own flags; no token, clock or verifier is involved",
     "bundles are built from schemas the way sign_bundles() assembles them (publish ∪ sign as flags 257, revoke as flags 385 overriding, one signature per signing key); the signing itself is C01/C02's subject",
 ]
@@ -351,6 +352,42 @@ def judge(res: Result, last: Any, new: Any, case: Any, obs: dict[str, Any], mode
             res.disagreement(f"{what}: model != implementation", case.full(), i_out, m)
 
 
+def run_glue_stream(res: Result, pairs: list[Pair], r: Any, tier: str) -> None:
+    """The entry point: a freshly signed SKR is written only if check_last_skr_and_new_skr accepted it.  The real
+    ksrsigner() runs with loaders / create_skr / writer stubbed (corr_C08.glue_run); the chain flags are off so that
+    nothing but C09's rules stands between the signed SKR and the output file."""
+    from kskm.common.config_misc import RequestPolicy
+    from kskm.signer.policy import check_last_skr_and_new_skr
+
+    seen: set[str] = set()
+    picked: list[Pair] = []
+    for p in pairs:
+        head = p.tag.split(":")[0]
+        kind = f"{head}:{r.randrange(30 if tier == 'quick' else 300)}" if head in ("pair", "custom", "random", "publish", "publish-inc", "retire", "revbit") else p.tag
+        if kind not in seen:
+            seen.add(kind)
+            picked.append(p)
+    PRE = ["load_skr", "load_ksr", "init_modules", "create_skr"]
+    for p in picked:
+        ksr = base_ksr(p.last, 2)
+        lj, nj = response_j(p.last), response_j(p.new)
+        for flags in flag_sets():
+            policy = RequestPolicy(check_chain_keys=False, check_chain_overlap=False, check_chain_keys_in_hsm=False, **flags)
+            events, out = glue_run(ksr, p.last, p.new, policy, None, "none")
+            direct = run_impl(lambda: check_last_skr_and_new_skr(p.last, p.new, policy))
+            case = Case("glue:" + p.tag, flags, lj, nj)
+            res.count(["glue", p.tag, flags])
+            res.bump("glue:" + ("written" if "write" in events else "stopped"))
+            reg = region(p.last, p.new)
+            if reg is not None:
+                want = all(reg[f] for f in FLAGS if flags[f])
+                if ("write" in events) != want or (out == {"ok": True}) != want:
+                    res.violation("ksrsigner(): an SKR is written although / not written because the safety region says otherwise", case.full(), key="glue:" + p.tag.split(":")[0], effects=events, outcome=out, documented_region_accepts=want, clauses=reg)
+            expect = PRE + (["write"] if "ok" in direct else [])
+            if events != expect or (("ok" in direct) and out != {"ok": True}) or (("ok" not in direct) and out != direct):
+                res.disagreement("ksrsigner(): effects / outcome differ from check_last_skr_and_new_skr's verdict at the documented call site", case.full(), {"effects": events, "outcome": out}, {"effects": expect, "check_last_skr_and_new_skr": direct})
+
+
 def run(tier: str, driver_ok: bool) -> Result:
     res = Result("C09")
     res.rule = (
@@ -384,6 +421,7 @@ def run(tier: str, driver_ok: bool) -> Result:
         if kind in ("publish", "retire", "custom", "revbit") and not any(s.get("kind") == kind for s in res.samples) and all(case.flags.values()) and "ok" not in obs["impl"]:
             res.sample({"kind": kind, "tag": case.tag, "flags": case.flags, "impl": obs["impl"], "model": model[pos], "region": region(p.last, p.new)}, limit=5)
         pos += nl
+    run_glue_stream(res, pairs, r, tier)
     return res
 
 
@@ -392,12 +430,20 @@ def replay(obj: dict[str, Any]) -> Any:
     case = v["case"]
     last, new = response_from_j(case["last"]), response_from_j(case["new"])
     c2, lines, obs = evaluate(Pair(case["tag"], last, new), case["flags"], with_halves=True)
+    if case["tag"].startswith("glue:"):
+        from kskm.common.config_misc import RequestPolicy
+
+        pol = RequestPolicy(check_chain_keys=False, check_chain_overlap=False, check_chain_keys_in_hsm=False, **case["flags"])
+        ev, out = glue_run(base_ksr(last, 2), last, new, pol, None, "none")
+        obs["halves"] = dict(obs["halves"])
+        obs["ksrsigner_effects"], obs["ksrsigner_outcome"] = ev, out
     models = run_driver(lines, exe=DRIVER)
     reg = region(last, new)
     return {
         "case": {"tag": case["tag"], "flags": case["flags"]},
         "implementation": obs["impl"],
         "implementation_per_half": obs["halves"],
+        "ksrsigner": {k: obs[k] for k in ("ksrsigner_effects", "ksrsigner_outcome") if k in obs},
         "model": models[0],
         "model_per_half": dict(zip(obs["halves"], models[1:])),
         "documented_region": reg,
